@@ -794,6 +794,11 @@ func c15Run(t *testing.T, c *evid.Collector) {
 				{{K: "put", B: "bk0", Key: "d/x", Body: same, Meta: mt("first")}, {K: "reopen"}, {K: "head", B: "bk0", Key: "d/x"}, {K: "put", B: "bk0", Key: "d/x", Body: same, Meta: mt("second")}, {K: "reopen"}},
 				{{K: "put", B: "bk0", Key: "a", Body: same, Meta: mt("first")}, {K: "copy", B: "bk0", Key: "a", SB: "bk0", SKey: "a", Meta: mt("by-copy")}, {K: "reopen"}},
 				{{K: "put", B: "bk0", Key: "a", Body: same, Meta: mt("first")}, {K: "del", B: "bk0", Key: "a"}, {K: "put", B: "bk0", Key: "a", Body: same, Meta: mt("second")}, {K: "reopen"}, {K: "del", B: "bk0", Key: "a"}, {K: "reopen"}},
+				// keys named like files the backends create for themselves
+				{{K: "put", B: "bk0", Key: "other", Body: same}, {K: "head", B: "bk0", Key: "other"}, {K: "put", B: "bk0", Key: ".modtime-resolution", Body: same, Meta: mt("first")}, {K: "head", B: "bk0", Key: ".modtime-resolution"},
+					{K: "reopen"}, {K: "head", B: "bk0", Key: "other"}, {K: "get", B: "bk0", Key: ".modtime-resolution"}, {K: "reopen"}},
+				{{K: "put", B: "bk0", Key: "_meta", Body: same, Meta: mt("first")}, {K: "put", B: "bk0", Key: "metadata", Body: same}, {K: "put", B: "bk0", Key: "buckets", Body: same}, {K: "put", B: "bk0", Key: "bk0", Body: same},
+					{K: "reopen"}, {K: "list", B: "bk0"}, {K: "del", B: "bk0", Key: "metadata"}, {K: "reopen"}},
 			} {
 				var ops []prog.Op
 				if !k.IsSingle() {
